@@ -1,15 +1,17 @@
 #!/bin/bash
-# try_seed.sh <seed-id> <property>... : applies the seeded change to /repo, runs the quick checks, restores /repo.
+# try_seed.sh <seed-id> <property>... : runs the quick checks (TIER=thorough for the other tier)
+# against a scratch worktree of /repo with the seeded change applied (VERIF_REPO), then removes the
+# worktree. /repo and /verif/evidence are not touched. (The registered commands always check /repo.)
 id=$1; shift
-git -C /repo status --short | grep -v '^??' && { echo "/repo dirty"; exit 2; }
-git -C /repo apply /verif/seeded/$id/patch.diff || exit 2
+w=/tmp/try_seed/w_$id
 mkdir -p /tmp/try_seed
+git -C /repo worktree remove --force $w 2>/dev/null
+git -C /repo worktree add --detach $w HEAD >/dev/null 2>&1 || { echo "worktree failed"; exit 2; }
+git -C $w apply /verif/seeded/$id/patch.diff || { git -C /repo worktree remove --force $w; exit 2; }
 for p in "$@"; do
-  cp /verif/evidence/$p.json /tmp/try_seed/$p.json.bak
   t0=$(date +%s)
-  timeout 1800 /verif/bin/vcheck $p ${TIER:+-tier $TIER} > /tmp/try_seed/$id.$p.log 2>&1; rc=$?
+  VERIF_REPO=$w timeout 1800 /verif/bin/vcheck $p ${TIER:+-tier $TIER} > /tmp/try_seed/$id.$p.log 2>&1; rc=$?
   echo "$id $p exit=$rc $(( $(date +%s)-t0 ))s: $(grep -m3 'VIOLATION\|KNOWN\|BOUND\|ENCODING\|ERROR' /tmp/try_seed/$id.$p.log | cut -c1-400)"
-  cp /tmp/try_seed/$p.json.bak /verif/evidence/$p.json
 done
-git -C /repo checkout -- .
-git -C /repo status --short | grep -v '^??'
+git -C /repo worktree remove --force $w
+rm -rf $w.verif
